@@ -4,10 +4,10 @@ package main
 
 import (
 	"fmt"
-	"os"
-	"sort"
 	"go/token"
 	"go/types"
+	"os"
+	"sort"
 	"strings"
 
 	"golang.org/x/tools/go/packages"
@@ -459,7 +459,7 @@ func (ft *FuncTr) applyContract(st *State, at *Term, in ssa.Instruction, name st
 	}
 	for _, n := range ms.names() {
 		ft.h.noteHavoc(st.heap[n], ft.h.nextID(st))
-			ft.h.noteMapArr(st, n)
+		ft.h.noteMapArr(st, n)
 	}
 	// results
 	res := fsig.Results()
@@ -603,8 +603,17 @@ func (ft *FuncTr) mapWriteFrame(st *State, at *Term, mt *types.Map, m *Term, pos
 
 // isElemOf: p is the address Elem(base, i) for some i; returns (cond, i)
 func isElemOf(p, base *Term) (*Term, *Term) {
+	return isElemOfX(p, base, false)
+}
+
+// isElemOfX: with nn, a nil base has no elements (Elem(Nil, i) is a junk location of the encoding)
+func isElemOfX(p, base *Term, nn bool) (*Term, *Term) {
 	pp := mk(nil, "path", p)
-	cond := And(Not(IsNil(p)), Eq(PObjID(p), PObjID(base)),
+	nnc := TTrue
+	if nn {
+		nnc = Not(IsNil(base))
+	}
+	cond := And(Not(IsNil(p)), nnc, Eq(PObjID(p), PObjID(base)),
 		&Term{"((_ is PE) " + pp.S + ")", SBool},
 		Eq(&Term{"(pe_base " + pp.S + ")", nil}, &Term{"(path " + base.S + ")", nil}))
 	return cond, &Term{"(pe_i " + pp.S + ")", SInt}
@@ -642,7 +651,7 @@ func (ft *FuncTr) appendBuiltin(st *State, at *Term, in ssa.Instruction, c *ssa.
 			if am != nil && am.whole {
 				continue
 			}
-			allowed := []*Term{grow, Le(ft.h.nextID(ft.init), PObjID(SlcArr(s)))}
+			allowed := []*Term{grow, Le(ft.h.nextID(ft.init), PObjID(SlcArr(s))), Eq(SlcLen(add), IntLit(0))}
 			if am != nil {
 				for _, l := range am.locs {
 					if l.kind == LocElems {
